@@ -366,9 +366,15 @@ def fixed_id_grid():
     return out
 
 
-def check_fixed_ids(acc, cases):
+def check_fixed_ids(acc, cases, culture=None):
+    """culture = name of the ambient CultureInfo.current_culture the lookups are made under (None = the process default).
+    The id syntax is culture-independent, so the expectation is the same under every ambient culture."""
     prov = DateTimeZoneProviders.tzdb
+    K = "C06/fixed-id/" if culture is None else "C06/fixed-id/ambient-culture/"
+    amb = "" if culture is None else " [CultureInfo.current_culture = %s]" % culture
     for text, exp in cases:
+        # under an ambient culture the failing input CLASS is the shape of the id text (one root cause must not give 700 keys)
+        tk = text if culture is None else ("near-miss" if exp is None else "UTC" if text == "UTC" else "UTC+-" + ":".join(["hh", "mm", "ss"][:text.count(":") + 1]))
         acc.count(states=1, nontrivial=1)
         for via in ("get_zone_or_none", "getitem"):
             acc.count(evaluations=1, transitions=1)
@@ -376,28 +382,29 @@ def check_fixed_ids(acc, cases):
                 z = prov.get_zone_or_none(text) if via == "get_zone_or_none" else prov[text]
             except DateTimeZoneNotFoundError as ex:
                 if via == "get_zone_or_none":
-                    acc.violation("C06/fixed-id/raises/%s" % text, "get_zone_or_none(%r) raised %s instead of returning None" % (text, type(ex).__name__), {"id": text, "via": via})
+                    acc.violation(K + "raises/%s" % tk, "get_zone_or_none(%r) raised %s instead of returning None%s" % (text, type(ex).__name__, amb), {"id": text, "via": via, "culture": culture})
                 elif exp is not None:
-                    acc.violation("C06/fixed-id/not-found/%s" % text, "provider[%r] raised DateTimeZoneNotFoundError; expected the fixed zone with offset %+ds" % (text, exp), {"id": text, "via": via})
+                    acc.violation(K + "not-found/%s" % tk, "provider[%r] raised DateTimeZoneNotFoundError; expected the fixed zone with offset %+ds%s" % (text, exp, amb), {"id": text, "via": via, "culture": culture})
                 else:
-                    acc.outcome("fixed-id:not-found")
+                    acc.outcome("fixed-id:not-found" if culture is None else "fixed-id under ambient culture %s: not found" % culture)
                 continue
             except Exception as ex:  # noqa: BLE001
                 if exc_origin(ex) == "harness":
                     raise
-                acc.violation("C06/fixed-id/raises/%s" % text, "%s(%r) raised %s: %s (expected %s)" % (
-                    via, text, type(ex).__name__, str(ex)[:120], "None / DateTimeZoneNotFoundError" if exp is None else "the fixed zone %+ds" % exp),
-                    {"id": text, "via": via},
+                acc.violation(K + "raises/%s" % tk, "%s(%r) raised %s: %s (expected %s)%s" % (
+                    via, text, type(ex).__name__, str(ex)[:120], "None / DateTimeZoneNotFoundError" if exp is None else "the fixed zone %+ds" % exp, amb),
+                    {"id": text, "via": via, "culture": culture},
                     py="from pyoda_time import DateTimeZoneProviders\n\ndef test_replay():\n    assert DateTimeZoneProviders.tzdb.get_zone_or_none(%r) is None\n" % text if exp is None else None)
                 continue
             if z is None:
                 if exp is not None:
-                    acc.violation("C06/fixed-id/none/%s" % text, "get_zone_or_none(%r) returned None; expected the fixed zone with offset %+ds" % (text, exp), {"id": text})
+                    acc.violation(K + "none/%s" % tk, "get_zone_or_none(%r) returned None; expected the fixed zone with offset %+ds%s" % (text, exp, amb), {"id": text, "culture": culture},
+                                  py=_py_culture(text, exp, culture))
                 else:
-                    acc.outcome("fixed-id:none")
+                    acc.outcome("fixed-id:none" if culture is None else "fixed-id under ambient culture %s: none" % culture)
                 continue
             if exp is None:
-                acc.violation("C06/fixed-id/resolved/%s" % text, "%s(%r) resolved to zone %r although the text is not of the form UTC+/-hh[:mm[:ss]] within +-18:00" % (via, text, z.id), {"id": text})
+                acc.violation(K + "resolved/%s" % tk, "%s(%r) resolved to zone %r although the text is not of the form UTC+/-hh[:mm[:ss]] within +-18:00%s" % (via, text, z.id, amb), {"id": text, "culture": culture})
                 continue
             ref = DateTimeZone.for_offset(Offset.from_seconds(exp))
             ok = True
@@ -406,19 +413,106 @@ def check_fixed_ids(acc, cases):
                 if t[0] is not None or t[1] is not None or t[3] != exp or t[4] != 0:
                     ok = False
             acc.count(evaluations=4, transitions=4)
-            if not ok or z.min_offset.seconds != exp or z.max_offset.seconds != exp or z != ref or z.id != ref.id:
-                acc.violation("C06/fixed-id/zone/%s" % text, "%s(%r) gives zone %r with offsets [%d, %d]; expected the fixed zone of %+ds (%r)" % (
-                    via, text, z.id, z.min_offset.seconds, z.max_offset.seconds, exp, ref.id), {"id": text, "expected_offset": exp})
-            else:
+            # (the id TEXT of a for_offset zone is rendered with the ambient culture - compared only under the default culture)
+            same_zone = culture is not None or (z == ref and z.id == ref.id)
+            if not ok or z.min_offset.seconds != exp or z.max_offset.seconds != exp or not same_zone:
+                acc.violation(K + "zone/%s" % tk, "%s(%r) gives zone %r with offsets [%d, %d]; expected the fixed zone of %+ds (%r)%s" % (
+                    via, text, z.id, z.min_offset.seconds, z.max_offset.seconds, exp, ref.id, amb), {"id": text, "expected_offset": exp, "culture": culture})
+            elif culture is None:
                 acc.outcome("fixed-id:resolved" + (":canonical-text" if z.id == text else ":other-spelling"))
+            else:
+                acc.outcome("fixed-id under ambient culture %s: resolved" % culture)
 
 
-def _fixed_shard(cases):
+AMBIENT_CULTURES = ("fi-FI", "da-DK", "id-ID", "th-TH", "ar-SA", "ko-KR", "fa-IR")
+# time separators ".", ".", ".", ICU's own for th-TH / ko-KR, ":" with Arabic-script digits in the culture data (ar-SA, fa-IR)
+
+
+def _py_culture(text, exp, culture):
+    if culture is None or exp is None:
+        return None
+    return ("from pyoda_time import DateTimeZoneProviders\nfrom pyoda_time._compatibility._culture_info import CultureInfo\n\n"
+            "def test_replay():\n    old = CultureInfo.current_culture\n    CultureInfo.current_culture = CultureInfo(%r)\n    try:\n"
+            "        z = DateTimeZoneProviders.tzdb.get_zone_or_none(%r)\n    finally:\n        CultureInfo.current_culture = old\n"
+            "    assert z is not None and z.max_offset.seconds == %d\n" % (culture, text, exp))
+
+
+class ambient_culture:
+    """with ambient_culture(name): the calling thread's CultureInfo.current_culture is `name`; always restored"""
+
+    def __init__(self, name):
+        self.name = name
+
+    def __enter__(self):
+        from pyoda_time._compatibility._culture_info import CultureInfo
+        self.ci = CultureInfo
+        self.old = CultureInfo.current_culture
+        CultureInfo.current_culture = CultureInfo(self.name)
+        return self
+
+    def __exit__(self, *a):
+        self.ci.current_culture = self.old
+        return False
+
+
+def check_lookups_under_culture(acc, culture):
+    """a small slice of provider / source lookups repeated under an ambient culture: same ids, same zone data"""
+    for which in FILES:
+        data, f = zw.decoded(which)
+        if f is None:
+            continue
+        prov = zw.provider(which)
+        src = zw.source(which)
+        cmap = nzdref.canonical_map(f)
+        ids = [i for i in ("Europe/London", "GB", "America/St_Johns", "Asia/Kolkata", "Asia/Calcutta", "Etc/GMT+5", "Pacific/Apia", "Australia/Lord_Howe") if i in cmap]
+        K = "C06/%s/ambient-culture/" % which
+        acc.count(states=len(ids) + 2, nontrivial=len(ids) + 2)
+        with ambient_culture(culture):
+            got_ids = list(prov.ids)
+            got_version = prov.version_id
+            zones = []
+            for zid in ids:
+                try:
+                    z = src.for_id(zid)          # built afresh from the bytes while the culture is in force
+                    zp = prov[zid]
+                    lo, hi = zw.year_start_ns(1900), zw.year_start_ns(2040)
+                    zones.append((zid, z.id, zp.id, zw.walk(z, lo, hi).tuples, lo, hi))
+                except Exception as ex:  # noqa: BLE001
+                    acc.lib_exception(K + "lookup/%s" % zid, ex, {"file": which, "zone": zid, "culture": culture})
+            try:
+                miss = prov.get_zone_or_none("Nowhere/Land")
+            except Exception as ex:  # noqa: BLE001
+                acc.lib_exception(K + "unknown-id", ex, {"file": which, "culture": culture})
+                miss = None
+        acc.count(evaluations=3 + 2 * len(ids), transitions=3 + 2 * len(ids))
+        if got_ids != nzdref.all_ids(f) or got_version != "TZDB: %s (mapping: %s)" % (f["tzdb_version"], f["windows"]["version"]) or miss is not None:
+            acc.violation(K + "catalogue", "ids / version_id / unknown-id lookup differ under CultureInfo.current_culture = %s" % culture, {"file": which, "culture": culture})
+        for zid, id1, id2, tuples, lo, hi in zones:
+            exp = tzrules.expected_intervals(f["zones"][cmap[zid]], lo, hi)
+            exp = [(t[0], t[1], zid if t[2] is None else t[2], t[3], t[4]) for t in exp]      # a fixed zone stored without a name is named by its id
+            acc.count(evaluations=len(tuples), transitions=len(tuples))
+            if id1 != zid or id2 != zid or tuples != exp:
+                acc.violation(K + "zone/%s" % zid, "zone %s looked up under CultureInfo.current_culture = %s has id %r/%r and %d intervals in 1900..2040, the file bytes say %d%s" % (
+                    zid, culture, id1, id2, len(tuples), len(exp), "" if len(tuples) != len(exp) else " (contents differ)"), {"file": which, "zone": zid, "culture": culture})
+        acc.outcome("provider lookups under ambient culture %s: %s" % (culture, which))
+
+
+def _fixed_shard(job):
+    culture, cases = job
     acc = Acc()
     try:
-        check_fixed_ids(acc, cases)
+        if culture is None:
+            check_fixed_ids(acc, cases)
+        else:
+            try:
+                with ambient_culture(culture):
+                    check_fixed_ids(acc, cases, culture)
+                if cases and cases[0][0] == "UTC":
+                    check_lookups_under_culture(acc, culture)
+            except ImportError:
+                acc.degrade("CultureInfo not importable from pyoda_time._compatibility._culture_info: ambient-culture repetition skipped")
     except Exception as ex:  # noqa: BLE001
-        acc.lib_exception("C06/fixed-id", ex, {})
+        acc.lib_exception("C06/fixed-id", ex, {"culture": culture})
     return acc
 
 
@@ -465,6 +559,8 @@ def run(ctx):
     ctx.assumptions = ["reference decoder and rule evaluator (vf/models/nzdref.py, tzrules.py) are written from the format description and import nothing from pyoda_time",
                        "quick tier: recurring tails compared for 400 years after the tail start + one seed-positioned block of 20 years + 9997..9999; "
                        "thorough: every canonical zone of both files to the end of time; aliases: stored periods + %d tail years + 9997..9999" % ALIAS_TAIL_YEARS,
+                       "the fixed-id grid and a slice of provider/source lookups are repeated with CultureInfo.current_culture set to each of %s "
+                       "(restored in a finally): results must not depend on the ambient culture; the id TEXT of the returned zone is not compared there" % (AMBIENT_CULTURES,),
                        "fixed-offset id grid: UTC, UTC+/-hh, hh:mm, hh:mm:ss with hh 0..18, mm/ss in {00,01,30,59} (within +-18:00) plus %d near misses" % sum(1 for _, e in fixed_id_grid() if e is None)]
     for d in zw.DEGRADED:
         ctx.degrade(d)
@@ -507,10 +603,13 @@ def run(ctx):
         ctx.note("work_items", len(items))
     if not only or "fixed-id" in only:
         grid = fixed_id_grid()
-        shards = [grid[i::8] for i in range(8)]
-        for a in pmap(_fixed_shard, shards):
+        jobs = [(None, grid[i::8]) for i in range(8)]
+        for cul in AMBIENT_CULTURES:
+            jobs += [(cul, grid[i::4]) for i in range(4)]
+        for a in pmap(_fixed_shard, jobs):
             ctx.merge_part("fixed-id", a)
         ctx.note("fixed_id_texts", len(grid))
+        ctx.note("ambient_cultures", list(AMBIENT_CULTURES))
     # declared finite space of the thorough tier: every stored period and every rule-generated transition through 9999 of every canonical
     # zone of both files (+ the alias windows and the id grid named in the assumptions)
     ctx.exhaustive = (tier == "thorough") and not only and not ctx.caps and not ctx.degraded and not any("/no-termination/" in k for k in ctx.violations)
@@ -524,7 +623,12 @@ def replay(rec):
         case = case["case"]
     acc = Acc()
     if "id" in case and "zone" not in case:
-        check_fixed_ids(acc, [c for c in fixed_id_grid() if c[0] == case["id"]])
+        cases = [c for c in fixed_id_grid() if c[0] == case["id"]]
+        if case.get("culture"):
+            with ambient_culture(case["culture"]):
+                check_fixed_ids(acc, cases, case["culture"])
+        else:
+            check_fixed_ids(acc, cases)
     elif "zone" in case:
         which = case.get("file", "bundled")
         _, f = zw.decoded(which)
